@@ -124,9 +124,10 @@ Proof. vm_compute. reflexivity. Qed.
 Example C20_dims_linferm_bounded :
   forallb (fun L => check_graph_dims (linferm_graph (R := Qcring) (map (fun k => qn (Z.of_nat k + 2)) (seq 0 L)) true) (dims_const L 2)) Ls = true.
 Proof. vm_compute. reflexivity. Qed.
-(* a non-generic point for contrast: without the field term the XXZ bond dimension drops to 4 in the bulk *)
-Example C20_dims_xxz_nonfield :
-  dims_ok (@xxz_spec Qcring qhalf (qn 3) (qn 5) (qn 0)) 6 [1; 4; 4; 4; 4; 4; 1]%nat = true.
+(* non-generic points for contrast: without the ZZ term the bulk bond dimension drops to 4, without the flip terms to 3 *)
+Example C20_dims_xxz_nongeneric :
+  dims_ok (@xxz_spec Qcring qhalf (qn 3) (qn 0) (qn 7)) 6 [1; 4; 4; 4; 4; 4; 1]%nat &&
+  dims_ok (@xxz_spec Qcring qhalf (qn 0) (qn 5) (qn 7)) 6 [1; 2; 3; 3; 3; 2; 1]%nat = true.
 Proof. vm_compute. reflexivity. Qed.
 
 (* ---- non-vacuity ---- *)
